@@ -211,6 +211,9 @@ pub enum Obs {
         time_tests: usize,
         /// hashed resources: distinct (pattern, insensitive) + printers
         resources: usize,
+        /// the tree holds a test kind this harness does not know (whether it embeds the clock is
+        /// then unknown)
+        unknown_tests: bool,
         /// iteration-order fingerprint of a fresh std HashMap made on the calling thread right
         /// before the call (reach probe for the hash-key seam)
         probe_order: u64,
@@ -275,8 +278,21 @@ where
     })
 }
 
+const KNOWN_TESTS: [&str; 38] = [
+    "AccessTime", "ChangeTime", "Empty", "Executable", "False", "GroupId", "InodeNumber", "InsensitiveName", "InsensitivePath",
+    "Links", "MirrorCount", "ModifyTime", "Name", "Path", "Perm", "Pool", "Readable", "Size", "StripeCount", "True", "Type",
+    "UserId", "Writable", "Xattr", "XattrMatch", "AccessNewer", "ChangeNewer", "FsType", "Group", "InsensitiveLinkName",
+    "InsensitiveRegex", "LinkName", "ModifyNewer", "NoGroup", "NoUser", "Regex", "Samefile", "User",
+];
+
 /// Facts read off the public AST.
 pub fn tree_facts(e: &lipe_find_parser::ast::Expression) -> (usize, usize) {
+    let (t, r, _) = tree_facts3(e);
+    (t, r)
+}
+
+/// (time tests, hashed resources, tree contains a test kind unknown to this harness)
+pub fn tree_facts3(e: &lipe_find_parser::ast::Expression) -> (usize, usize, bool) {
     use lipe_find_parser::ast::{Action, Expression, Operator, Test};
     fn walk(e: &Expression, time: &mut usize, res: &mut std::collections::BTreeSet<String>) {
         match e {
@@ -289,6 +305,11 @@ pub fn tree_facts(e: &lipe_find_parser::ast::Expression) -> (usize, usize) {
             },
             Expression::Test(t) => match t {
                 Test::AccessTime(_) | Test::ChangeTime(_) | Test::ModifyTime(_) => *time += 1,
+                // a test kind this harness does not know (added after the pinned tree): it may or
+                // may not be a time test; reported through the resource set
+                other if !KNOWN_TESTS.contains(&format!("{other:?}").split(|c: char| !c.is_alphanumeric()).next().unwrap_or("")) => {
+                    res.insert("unknown-test-kind".into());
+                }
                 Test::Name(s) | Test::Path(s) => {
                     res.insert(format!("m:{s}"));
                 }
@@ -314,7 +335,8 @@ pub fn tree_facts(e: &lipe_find_parser::ast::Expression) -> (usize, usize) {
     let mut time = 0;
     let mut res = std::collections::BTreeSet::new();
     walk(e, &mut time, &mut res);
-    (time, res.len())
+    let unknown = res.remove("unknown-test-kind");
+    (time, res.len(), unknown)
 }
 
 /// parse + compile, everything observable boxed up. Runs on a caller thread.
@@ -415,10 +437,11 @@ fn caller_thread(env: Env, hash_key: u64, jobs: Receiver<Job>, replies: Sender<R
                         table: None,
                         time_tests: 0,
                         resources: 0,
+                        unknown_tests: false,
                         probe_order: 0,
                     }),
                     Ok(Ok((opts, tree))) => {
-                        let (time_tests, resources) = tree_facts(&tree);
+                        let (time_tests, resources, unknown_tests) = tree_facts3(&tree);
                         let probe_order = hash_order_probe();
                         let entry0 = begin_call(&env, &script);
                         for rep in 0..(if twice { 2 } else { 1 }) {
@@ -445,6 +468,7 @@ fn caller_thread(env: Env, hash_key: u64, jobs: Receiver<Job>, replies: Sender<R
                                     table: None,
                                     time_tests,
                                     resources,
+                                    unknown_tests,
                                     probe_order,
                                 }),
                                 Ok(Ok(c)) => {
@@ -470,6 +494,7 @@ fn caller_thread(env: Env, hash_key: u64, jobs: Receiver<Job>, replies: Sender<R
                                                 table,
                                                 time_tests,
                                                 resources,
+                                                unknown_tests,
                                                 probe_order,
                                             });
                                             reply.compiled.push(Handoff(c));
